@@ -121,6 +121,8 @@ def assertion_c06(B, out):
             continue
         pre = f"intervention {k}: "
         path = walk(dump, iv["succession"])
+        # "reports as successful": an intervention that can be carried out - a step without any override cannot force anything
+        parts.append((pre + "reported successful, so every step lists at least one override", B.const(all(len(st) > 0 for st in iv["control"]) and len(iv["control"]) == len(iv["succession"]))))
         parts.append((pre + "succession follows edges of the diagram from the root", B.const(path is not None)))
         if path is None:
             continue
